@@ -229,4 +229,15 @@ var props = map[string]*propDef{
 			{Name: "ch.VerifC09Stream", Quick: map[string]int{"maxrounds": 2}, Thorough: map[string]int{"maxrounds": 3}},
 		},
 	},
+	"C03": {
+		ID: "C03", Level: "model_checking", Rule: ruleDefault,
+		Assumptions: append([]string{
+			"Client.Do is run under the cooperative scheduler against a scripted server stream written by the harness' reference encoder (tied to the library's decoders by C17)",
+			"time.Local is UTC (tzdata not read); compression disabled for result blocks in this harness",
+		}, baseAssumptions...),
+		Harnesses: []harnessDef{
+			{Name: "ch.VerifC03Script", Quick: map[string]int{"maxpackets": 2, "maxfail": 0}, Thorough: map[string]int{"maxpackets": 3, "maxfail": 1}},
+			{Name: "ch.VerifC03Script", OnlyTier: "thorough", Thorough: map[string]int{"maxpackets": 2, "maxfail": 0, "symversion": 1}},
+		},
+	},
 }
